@@ -385,6 +385,31 @@ static void serialise_current(const RunCfg &cfg, const RunOut &out, std::string 
     *replay_json = j;
 }
 
+// signature of the first recorded violation: the oracle's class, for heap / race reports extended
+// by the (template-stripped) function names of the sites involved
+static void fill_signature(RunOut &out)
+{
+  std::string sd = symbolize_pcs(g.viol[0].detail);
+  std::string sig = g.viol[0].cls;
+  if (!strncmp(g.viol[0].cls, "heap:", 5)) {
+    sig += "|access=" + first_fn_of(sd, "access") + "|alloc=" + first_fn_of(sd, "alloc");
+  } else if (!strncmp(g.viol[0].cls, "data-race:", 10)) {
+    // both access sites, order-independent
+    std::string a = first_fn_of(sd, "access");
+    size_t p2 = sd.find("pc=", sd.find("pc=") + 3);
+    std::string b = "?";
+    if (p2 != std::string::npos) {
+      std::string rest = sd.substr(p2);
+      b = first_fn_of(rest, "access");
+    }
+    if (b < a)
+      std::swap(a, b);
+    sig += "|" + a + "|" + b;
+  }
+  out.sig = sig;
+  out.detail = sd;
+}
+
 static void do_run(const RunCfg &cfg, RunOut &out, std::string *replay_json)
 {
   g_cur_cfg = &cfg;
@@ -453,25 +478,7 @@ static void do_run(const RunCfg &cfg, RunOut &out, std::string *replay_json)
   if (cfg.scen->nontrivial_faults)
     out.nontrivial = nf > 0 || g.plan_dec.n > 2;
   if (res == RES_VIOLATION && g.nviol) {
-    std::string sd = symbolize_pcs(g.viol[0].detail);
-    std::string sig = g.viol[0].cls;
-    if (!strncmp(g.viol[0].cls, "heap:", 5)) {
-      sig += "|access=" + first_fn_of(sd, "access") + "|alloc=" + first_fn_of(sd, "alloc");
-    } else if (!strncmp(g.viol[0].cls, "data-race:", 10)) {
-      // both access sites, order-independent
-      std::string a = first_fn_of(sd, "access");
-      size_t p2 = sd.find("pc=", sd.find("pc=") + 3);
-      std::string b = "?";
-      if (p2 != std::string::npos) {
-        std::string rest = sd.substr(p2);
-        b = first_fn_of(rest, "access");
-      }
-      if (b < a)
-        std::swap(a, b);
-      sig += "|" + a + "|" + b;
-    }
-    out.sig = sig;
-    out.detail = sd;
+    fill_signature(out);
   } else if (res == RES_DEADLOCK) {
     out.sig = "rt:unclassified-deadlock";
   }
@@ -557,6 +564,7 @@ static MsgBatch g_batch;
 
 // single-task (fault layer) lanes: a sanitizer report, a crash or a run that does not terminate IS
 // the violation (memory safety / totality); report it with the decisions taken so far
+static void fill_signature(RunOut &out);
 static void report_fatal_as_violation(const char *sig_prefix, const char *what, uintptr_t pc)
 {
   static volatile int once = 0;
@@ -582,6 +590,12 @@ static void report_fatal_as_violation(const char *sig_prefix, const char *what, 
   }
   out.sig = std::string(sig_prefix) + ":" + what + (pc ? "|" + o : std::string());
   out.detail = std::string(what) + " at " + fn;
+  if (g.nviol) {
+    // the run had already recorded a violation: the crash is its consequence
+    std::string crash = out.sig;
+    fill_signature(out);
+    out.detail += " [followed by " + crash + "]";
+  }
   out.ev_hash = g.ev_hash;
   out.ilv_hash = g.ilv_hash;
   out.steps = g.steps;
@@ -640,9 +654,13 @@ extern "C" __attribute__((used)) const char *__ubsan_default_options() { return 
 
 static void child_crash_handler(int sig)
 {
-  if (g.scen && g.scen->nontrivial_faults && g.active) {
+  // A fatal signal inside an active run is an outcome of the code under test (memory error,
+  // std::terminate, assert): report it as a violation with the decisions taken so far. A run that
+  // exceeds its wall budget is a violation only on the single-task lanes (totality); on the
+  // simulated-thread lanes it would point at the simulator itself and stays 'broken'.
+  if (g.scen && g.active && (sig != SIGALRM || g.scen->nontrivial_faults)) {
     char w[64];
-    snprintf(w, sizeof w, sig == SIGALRM ? "no-termination-within-wall-budget" : "signal-%d", sig);
+    snprintf(w, sizeof w, sig == SIGALRM ? "no-termination-within-wall-budget" : (sig == SIGABRT ? "abort (std::terminate / assert)" : "signal-%d"), sig);
     report_fatal_as_violation(sig == SIGALRM ? "hang" : "crash", w, 0);
   }
   // report what we know and leave
